@@ -47,6 +47,8 @@ def run(chk):
     e8.check_heff_factor(chk, "T6")
     chk.rule("T5", "expmv returns a combination of the orthonormal Krylov basis started from v/|v|; effective operators are linear", floor=20)
     e7.check_krylov_combination(chk, "T5", prog.func("yastn.krylov._krylov", "expmv"))
+    ng = e7.check_local_generators(chk, "T5", prog, TDVP)
+    chk.require(ng >= 4, f"local generators handed to expmv in _tdvp not found ({ng}, 6 confirmed by hand)")
     ENVM = "yastn.tn.mps._env"
     for ci in prog.module(ENVM).classes.values():
         for name, f in ci.methods.items():
